@@ -145,6 +145,13 @@ def deCmd (args : List String) : String :=
       | .ok w => s!"ok {showValue w}"
       | .error e => s!"E {showDeErr e}"
     | _, _ => "bad-op"
+  | ["fromobj", v, tab] =>
+    match parseValue? v, parseTable? tab with
+    | some v, some tab =>
+      match fromValueObject (envOf tab).f64 v with
+      | .ok w => s!"ok {showValue w}"
+      | .error e => s!"E {showDeErr e}"
+    | _, _ => "bad-op"
   | _ => "bad-op"
 
 end Driver
